@@ -33,7 +33,8 @@ Print Assumptions C14_stutter_any.
 (* the preview answers exactly what the real write answers, for every kind of request and every outcome: both
    answers are [answer disk lastTXID q] (Engine/E3Dry.v), a function of the disk and of lastTXID only:
      revert: transaction absent -> ENotFound; already reverted -> EAlreadyReverted; then as a create of the swapped postings
-     key present on disk: same kind -> ROk (stored transaction id) ; other kind -> EKindMismatch
+     key present on disk: same kind -> ROk (stored transaction id) ; other kind -> EKindMismatch for a transaction,
+                          ROk for a metadata write (which does not look at the stored entry)
      transaction: reference on disk -> EConflict; funds (balances read from the disk) insufficient -> EInsufficient;
                   no posting -> ENoPostings; otherwise ROk (lastTXID + 1)
      metadata write: target transaction absent -> ENotFound; otherwise ROk *)
